@@ -219,7 +219,13 @@ __CPROVER_ensures(ST_SHAPE(st)) /*@C07.query-wf C19.query-wf*/
 #define C08_LTR_LEDGER(live0, allocs0, tx0) \
     (g_led.live == (live0) && g_led.allocs == (allocs0) + 1u && g_led.tx_attempts == (tx0) + (V_ALLOC_OK(allocs0, 0) ? 1u : 0u))
 
+/* what a caller has to hand over: the requested offset and the whole property the platform provides for the request (or nothing
+ * when the platform failed) - stated over the ghost request g_req, so it is an obligation at the call sites of parseQueryLargeTlv
+ * wherever sendLargeTlvResponse is replaced by its contract (big-icon instance) */
+#define C08_LTR_ARGS(d, n, off) \
+    (g_req.kind != V_K_QLTV || ((off) == g_req.lt_off && ((n) == g_req.lt_size || (g_req.lt_fault && (n) == 0))))
 static void sendLargeTlvResponse(lltd_iface_state *st, void *iface_ctx, void *inFrame, const void *data, size_t dataSize, uint16_t dataOffset)
+__CPROVER_requires(C08_LTR_ARGS(data, dataSize, dataOffset)) /*@C08.ltr-args*/
 __CPROVER_requires(PRE_frame(inFrame) && V_RW_OK(st, sizeof(lltd_iface_state)))
 __CPROVER_requires(data == NULL || V_R_OK(data, dataSize))
 __CPROVER_requires(iface_ctx == g_ctx) /*@C17.ctx-passed*/
